@@ -178,6 +178,19 @@ def replayer(obl, model):
             for xd in (0.0, 1.5, 2.999999, 3.0, 3.5, -1.0):
                 linear_interp(xd, x, y)
                 replayer.calls += 1
+        if 'cumsum' in fn or obl is None:
+            # empty and one-element inputs for every flag combination, output of exactly the documented length (interpreted: an
+            # out-of-range store raises)
+            from abacusnbody.util import cumsum
+            f = getattr(cumsum, 'py_func', cumsum)
+            for N in (0, 1, 2):
+                for initial in (False, True):
+                    for final in (False, True):
+                        if N - 1 + int(initial) + int(final) < 0:
+                            continue             # no output length is acceptable (rejected with ValueError)
+                        out = np.zeros(N - 1 + int(initial) + int(final), dtype=np.int64)
+                        f(np.arange(N, dtype=np.int64), out, initial=initial, final=final, offset=5)
+                        replayer.calls += 1
         if 'msum_core' in fn or obl is None:
             from abacusnbody.hod.menv import msum_core
             out = np.zeros(2)
